@@ -424,7 +424,15 @@ class CGenerator:
         return s
 
     def _generate_struct_union_body(self, members: List[c_ast.Node]) -> str:
-        return "".join(self._generate_stmt(decl) for decl in members)
+        s = ""
+        for decl in members:
+            if isinstance(decl, c_ast.StaticAssert):
+                # A static assertion inside a struct is a member declaration
+                # of its own, terminated by a semicolon.
+                s += self._make_indent() + self.visit(decl) + ";\n"
+            else:
+                s += self._generate_stmt(decl)
+        return s
 
     def _generate_enum_body(self, members: List[c_ast.Enumerator]) -> str:
         # `[:-2] + '\n'` removes the final `,` from the enumerator list
